@@ -71,6 +71,28 @@ def run(ctx: core.Ctx) -> None:
         for rec in recs[:: max(1, len(recs) // 2)][:2]:
             ctx.sample(rec)
     ctx.exhaustive = True
+    # code -> spec: the repository's linker tests and random real linkers, validated by LinkerTrace.tla
+    from . import solver_common as sc
+    from .. import trace_linker as tl, trace_solver as ts
+    core.sany('LinkerTrace')
+    suite = sc.record_suite(ctx, ['tests/test_core.py', '-k', 'Linker'], 'linker-suite')
+    files = [suite] + sc.record_driver(ctx, 'harness.drive_linkers', [{'seed': ctx.seed * 100 + i, 'runs': 40 if quick else 600} for i in range(core.NCPU)], 'linkers')
+    episodes = []
+    for f in files:
+        eps, _ = tl.split_episodes(ts.read_events(f))
+        episodes += eps
+    if not episodes:
+        raise core.MachineryError('no linker episodes recorded')
+    acc, rej, stats, tot = tl.validate(episodes, 'C08-trace')
+    ctx.traces_validated += acc
+    ctx.states += tot['states']
+    ctx.transitions += tot['generated']
+    ctx.extra['traces'] = {'episodes': len(episodes), 'accepted': acc, 'rejected': len(rej), 'stats': stats, 'events': sum(len(e) for e in episodes)}
+    for r in rej:
+        en, ex = r['raw'][0], r['abstract'][-1]
+        ctx.mismatch(f"linker-trace-rejected exit={ex.get('kind')}/{ex.get('st')} {'offset ' if en.get('offset') else ''}{'max_iter=0 ' if en.get('max') == 0 else ''}violated={r['result'].get('violated')}",
+                     {'module': 'LinkerTrace', 'direction': 'code->spec', 'result': r['result'], 'abstract_episode': r['abstract'], 'raw_episode': r['raw']})
+    ctx.sample({'linker_trace_episode': episodes[len(episodes) // 2][:8]})
     ctx.assumptions += ['finite data only (the property is silent on non-finite values in linkers)',
                         'submodel passes are scripted; cross-links are realised by the linker post-hook writing the linker variable']
 
